@@ -315,7 +315,7 @@ func (rn *Runner) runBatch(cases []*Case) []*Result {
 		rn.runSolo(mod, results[0], sub)
 		rn.readOutputs(mod, results[0])
 		if rn.AlsoCheck || rn.AlsoShow {
-			rn.runReadOnly(mod, results)
+			rn.runReadOnly(mod, results, false)
 		}
 		rn.compileAndRun(mod, results)
 		return results
@@ -385,7 +385,8 @@ func (rn *Runner) runBatch(cases []*Case) []*Result {
 		rn.readOutputs(mod, r)
 	}
 	if rn.AlsoCheck || rn.AlsoShow {
-		rn.runReadOnly(mod, results)
+		// a batch whose load failed as a whole (ill-typed member) is re-analysed case by case
+		rn.runReadOnly(mod, results, solo)
 	}
 	// Gen-stage done; compile and run accepted cases that ask for it.
 	rn.compileAndRun(mod, results)
@@ -439,7 +440,7 @@ func attributeByPath(stderr string) (map[string][]string, []string) {
 func dirHash(dir string) string { return ReadTree(dir).Hash() }
 
 // runReadOnly runs wire check / wire show on the batch and attributes their output.
-func (rn *Runner) runReadOnly(mod string, results []*Result) {
+func (rn *Runner) runReadOnly(mod string, results []*Result, forceSolo bool) {
 	norm := func(s, dir string) string {
 		s = strings.ReplaceAll(s, mod+"/"+dir+"/", "")
 		s = strings.ReplaceAll(s, ModPath+"/"+dir, "{{ROOT}}")
@@ -460,7 +461,10 @@ func (rn *Runner) runReadOnly(mod string, results []*Result) {
 		rn.WireRuns++
 		rn.mu.Unlock()
 		changed := dirHash(mod) != before
-		soloAll := res.TimedOut || rePanic.MatchString(res.Stderr)
+		if dbg := os.Getenv("VERIF_DEBUG_DIR"); dbg != "" {
+			os.WriteFile(filepath.Join(dbg, sub+"-"+filepath.Base(mod)+".log"), []byte("FIRSTCASE "+results[0].Case.ID+fmt.Sprintf(" exit=%d timedout=%v\n", res.Exit, res.TimedOut)+res.Stderr+"\n=====STDOUT\n"+res.Stdout), 0o644)
+		}
+		soloAll := res.TimedOut || rePanic.MatchString(res.Stderr) || (forceSolo && len(results) > 1)
 		var by map[string][]string
 		if !soloAll {
 			var rest []string
